@@ -177,6 +177,9 @@ def pk(props=("C16", "C03"), recipe=(1, 1), n_pallets=2, blocking=True, split_ou
         pd = ctx.real("pd", 0, 3) if "pd" in sym else 1
         sd = ctx.real("sd", 0, split_sd_hi) if split_pd == "sym" and "sd" in sym else 1
         od = ctx.real("od", 0, 3) if out_delay == "sym" else out_delay
+        if out_delay == "sym-each":
+            # a fresh symbolic delay for every object entering the edge (a consumer that is sometimes slow, sometimes fast)
+            od = F.delay_source("MIDDELAY", [ctx.real("od", 0, 4) for _ in range(n_pallets)], "generator", after=0)
         need = [recipe[i + 1] * n_pallets for i in range(n_ing)]
         comb = None if no_combiner else F.add_node(Combiner(env, "CMB", target_quantity_of_each_item=list(recipe), processing_delay=F.delay_source("CMB", [pd] * (n_pallets + 1), "callable", after=1),
                                    blocking=blocking, node_setup_time=setup))
